@@ -850,3 +850,13 @@ def loop_early_exits(prog, f, header):
                 continue
             out.append((u, v, cond))
     return out
+
+
+def check_full_scan(ctx, rule, construct, f, iter_re, what, min_loops=1):
+    """instance: every `for` loop of f whose iterator tree matches iter_re is left only on exhaustion or on an error"""
+    prog = ctx.prog
+    loops = [c for c in f.calls() if c.callee and c.callee["name"] == "next" and re.search(iter_re, expr_tree(prog, f, c.args[0]))]
+    loops = [c for c in loops if any(c.block in f.reachable(start=b) for b in f.succ()[c.block])]
+    bad = [x for c in loops for x in loop_early_exits(prog, f, c.block)]
+    ctx.inst(rule, construct, len(loops) >= min_loops and not bad, "%s: the scan is left only when exhausted or on an error (no element is skipped by an early exit)" % what,
+             ["%s leaves the loop at %s" % (c_, f.bloc(u)) for u, v, c_ in bad] or "%d loop(s)" % len(loops), f.loc(f.raw["span"]))
